@@ -12,7 +12,7 @@ FEE = ('pct', '0.001', '0')
 INITIALS = [
     (),
     (('acct_sub', '5000'), ('create', '1'), ('create', '2'), ('pf_sub', '1', '2000'),
-     ('pf_sub', '2', '2000'), ('submit', '1', 'A', 5), ('submit', '1', 'B', 2), ('submit', '2', 'B', -3), ('tick', 2)),
+     ('pf_sub', '2', '2000'), ('submit', '1', 'A', 5), ('submit', '1', 'Bq', 2), ('submit', '2', 'Bq', -3), ('tick', 2)),
     # portfolio clocks ahead of earlier open instants, nothing held
     (('acct_sub', '5000'), ('create', '1'), ('create', '2'), ('tick', 3), ('pf_sub', '1', '2000'),
      ('pf_sub', '2', '2000')),
@@ -174,6 +174,15 @@ def faults(m):
         out.append(('Portfolio.withdraw_funds(excess)',
                     lambda port=port, t=pclock, cash=cash: port.withdraw_funds(t, max(cash, 0.0) + 0.01),
                     ValueError, True))
+        # the same refusals stamped LATER than the portfolio clock: a refused request must not advance the clock
+        # either (a later, valid request at the broker's time would then be refused)
+        later = max(pclock, m.now()) + pd.Timedelta(hours=1)
+        out.append(('Portfolio.subscribe_funds(later dt, negative)',
+                    lambda port=port, t=later: port.subscribe_funds(t, -5.0), ValueError, True))
+        out.append(('Portfolio.withdraw_funds(later dt, negative)',
+                    lambda port=port, t=later: port.withdraw_funds(t, -5.0), ValueError, True))
+        out.append(('Portfolio.withdraw_funds(later dt, excess)',
+                    lambda port=port, t=later, cash=cash: port.withdraw_funds(t, max(cash, 0.0) + 0.01), ValueError, True))
         out.append(('Portfolio.subscribe_funds(earlier dt)',
                     lambda port=port, t=earlier: port.subscribe_funds(t, 10.0), ValueError, True))
         out.append(('Portfolio.withdraw_funds(earlier dt)',
@@ -182,6 +191,18 @@ def faults(m):
                     lambda port=port, t=earlier: port.transact_asset(Transaction('A', 1, t, 10.0, 'bad', commission=0.5)),
                     ValueError, True))
         for asset in list(b.get_portfolio_as_dict(pid).keys()):
+            # a fill the POSITION refuses (its own clock is ahead of the portfolio's after a future-stamped mark; or a
+            # non-positive price): refused requests of the portfolio like any other
+            mp = m.pfs[pid].pos.get(asset)
+            if mp is not None and mp.clock > m.pfs[pid].clock:
+                mid = bm.INSTANTS[mp.clock] - pd.Timedelta(seconds=1)
+                if mid >= pclock:
+                    out.append(('Portfolio.transact_asset(earlier than the position clock)',
+                                lambda port=port, a=asset, t=mid: port.transact_asset(Transaction(a, 2, t, 10.0, 'bad', commission=0.5)),
+                                ValueError, True))
+            out.append(('Portfolio.transact_asset(non-positive price)',
+                        lambda port=port, a=asset, t=max(pclock, bm.INSTANTS[mp.clock] if mp is not None else pclock):
+                        port.transact_asset(Transaction(a, 2, t, 0.0, 'bad', commission=0.5)), ValueError, True))
             out.append(('Portfolio.update_market_value_of_asset(earlier dt)',
                         lambda port=port, a=asset, t=earlier: port.update_market_value_of_asset(a, 10.0, t),
                         ValueError, True))
